@@ -404,6 +404,11 @@ int main()
     struct rlimit rl;
     rl.rlim_cur = rl.rlim_max = 3ull << 30;
     setrlimit(RLIMIT_AS, &rl);
+    // seconds per case (CODEC_ALARM: the check re-runs a case that timed out with a longer limit to
+    // tell a slow allocation from a loop)
+    unsigned alarm_s = 15;
+    if (const char *a = getenv("CODEC_ALARM"))
+        alarm_s = (unsigned)atoi(a);
     std::vector<S> lines;
     S line;
     while (std::getline(std::cin, line))
@@ -439,7 +444,7 @@ int main()
                 }
             };
             for (size_t j = i; j < lines.size(); j++) {
-                alarm(15);
+                alarm(alarm_s);
                 try {
                     process(lines[j], emit);
                 } catch (...) {
